@@ -296,14 +296,15 @@ begin_test "prune keep unpushed"
   git lfs prune
 
   # Now push main and show that only older versions on main will be removed.
+  # The first version is still part of the tree of the recent (annotated)
+  # tag, which was created from the first commit, so it is retained.
   git push origin main
 
   git lfs prune --verbose 2>&1 | tee prune.log
-  grep "12 local objects, 10 retained" prune.log
-  grep "Deleting objects: 100% (2/2), done." prune.log
-  grep "$oid_keepunpushedhead1" prune.log
+  grep "12 local objects, 11 retained" prune.log
+  grep "Deleting objects: 100% (1/1), done." prune.log
   grep "$oid_keepunpushedhead2" prune.log
-  refute_local_object "$oid_keepunpushedhead1"
+  assert_local_object "$oid_keepunpushedhead1" "${#content_keepunpushedhead1}"
   refute_local_object "$oid_keepunpushedhead2"
 
   # Merge the unpushed branch and tag, delete them, and then push main.
@@ -317,8 +318,9 @@ begin_test "prune keep unpushed"
   # Now make sure we purged all the intermediate commits but also make sure
   # they are on the remote.
   git lfs prune --verbose 2>&1 | tee prune.log
-  grep "10 local objects, 2 retained" prune.log
-  grep "Deleting objects: 100% (8/8), done." prune.log
+  grep "11 local objects, 2 retained" prune.log
+  grep "Deleting objects: 100% (9/9), done." prune.log
+  grep "$oid_keepunpushedhead1" prune.log
   grep "$oid_keepunpushedbranch1" prune.log
   grep "$oid_keepunpushedbranch2" prune.log
   grep "$oid_keepunpushedandexcludedbranch1" prune.log
@@ -329,6 +331,7 @@ begin_test "prune keep unpushed"
   grep "$oid_keepunpushedtag1" prune.log
   grep "$oid_keepunpushedtag2" prune.log
   grep "$oid_keepunpushedhead3" prune.log
+  refute_local_object "$oid_keepunpushedhead1"
   refute_local_object "$oid_keepunpushedbranch1"
   refute_local_object "$oid_keepunpushedbranch2"
   refute_local_object "$oid_keepunpushedandexcludedbranch1"
